@@ -64,7 +64,7 @@ func check(x *mon.Ctx, slot int, c *world.Case) (mon.Outcome, *ref.Verdict) {
 	if p := verdictProblem(c, out, v); p != "" {
 		x.Violation(c.Class, c.Param, p, "verify", c)
 	}
-	if x.Shadow && out.Panic == "" && (x.ShadowAll || c.TwinRef != nil) {
+	if x.Shadow && out.Panic == "" && !c.ShadowSkip && (x.ShadowAll || c.TwinRef != nil) {
 		shadow(x, c, out)
 	}
 	nontrivial := true
